@@ -6,6 +6,10 @@
    pushnames <store> <remote> <local> <names>   -> R <refs sorted>
    miops <sg letters O/R/C/K or -> <pairs t:w,t:w> -> ops  d:s+s;d:s
    aqops <sg letters O/R/C/K or -> <triples q:w:qint,...> -> ops  d:s+s;d:s   (add_to_queue_ops)
+   uiops <sg letters O/R/C/K or -> <pairs w:dst,... or -> <src> -> ops  d:s+s;d:s   (Gate.update_ops)
+   insync <store> <refs> <src> <wbranches comma, the first one is the source itself> -> 1 | 0   (Gate.check_in_sync)
+   isneeded <store> <refs> <4 flags 0/1: use_queue skip_queue_when_not_needed already_in_queue queued_prs_nonempty>
+            <src> <dst> <pairs w:dst,... (the first one is src:dst)> -> 1 | 0                    (Gate.is_needed)
    incl <store> <refs> <pairs a:b,...>          -> 1 | 0
    anc <store> <a> <b>                          -> 1 | 0 *)
 let split c s = if s = "-" || s = "" then [] else String.split_on_char c s
@@ -39,6 +43,13 @@ let flow_handle (l : String.t) : String.t =
     "R " ^ show_refs (push_names (parse_store st) (parse_refs remote) (parse_refs local) (nats names))
   | ["miops"; sg; pairs] -> show_ops (merge_integration_ops (strats sg) (parse_refs pairs))
   | ["aqops"; sg; triples] -> show_ops (add_to_queue_ops (strats sg) (parse_triples triples))
+  | ["uiops"; sg; pairs; src] -> show_ops (update_ops (strats sg) (nat_of_int (int_of_string src)) (parse_refs pairs))
+  | ["insync"; st; refs; src; ws] ->
+    word_of_bool (check_in_sync { st = parse_store st; refs = parse_refs refs } (nat_of_int (int_of_string src)) (nats ws))
+  | ["isneeded"; st; refs; flags; src; dst; pairs] when String.length flags = 4 ->
+    let f i = flags.[i] = '1' in
+    word_of_bool (is_needed (f 0) (f 1) (f 2) (f 3) { st = parse_store st; refs = parse_refs refs }
+                    (nat_of_int (int_of_string src)) (nat_of_int (int_of_string dst)) (parse_refs pairs))
   | ["incl"; st; refs; pairs] ->
     word_of_bool (incl_b { st = parse_store st; refs = parse_refs refs } (parse_refs pairs))
   | ["anc"; st; a; b] -> word_of_bool (anc (parse_store st) (nat_of_int (int_of_string a)) (nat_of_int (int_of_string b)))
